@@ -10,11 +10,26 @@ package sqlite
 // calling commitTXAndStartNew on the closed connection once a second. A service exits after
 // Close, so this does not matter there; a harness has to stop the loop itself.
 
-// VerifMetaStopLoops cancels the engine context (ends txLoop). Call after Close.
+// VerifMetaStopLoops cancels the engine context (ends txLoop) and drops the closed engine's
+// reference to its binlog. Call after Close.
+//
+// Why the second part: when a replay queues events, newApplyQueue registers a callback with the
+// process-global statshouse client (statshouse.StartRegularMeasurement) that is never
+// unregistered and captures a pointer into the Engine; every engine that has replayed more than
+// one event therefore stays reachable for the life of the process, together with its fsbinlog
+// and that binlog's ~1 MB of buffers (60 GB after 100 000 reopens). Irrelevant for a service
+// with one engine per process; a harness has to cut the big part loose.
 func (e *Engine) VerifMetaStopLoops() {
-	if e != nil && e.stop != nil {
+	if e == nil {
+		return
+	}
+	if e.stop != nil {
 		e.stop()
 	}
+	e.rw.mu.Lock() // txLoop may be inside its last commitTXAndStartNew
+	e.binlog = nil
+	e.apply, e.scan = nil, nil
+	e.rw.mu.Unlock()
 }
 
 // VerifMetaCommit commits the engine's open SQLite transaction now and starts the next one —
